@@ -538,6 +538,10 @@ class AsyncCheck(SeqCheck):
         stats, divs = seqsuite.run(ctx, runner, self.suites(ctx), mode='async', satlog=satlog)
         extra = {}
         if self.wake_oracle: extra = self.wake_check(ctx, satlog)
+        if ctx.prop == 'C14':
+            # futures of iterators created by EVERY async split, the by-value splits of a stack buffer that was used before included
+            # (fresh async iterators against the indices of the previous session would resolve with items nobody produced)
+            c18_splitprobe(ctx, runner, stats, divs)
         self.decide(ctx, divs, not ok, log)
         cov = {'evaluations': stats.steps, 'distinct_nontrivial': len(stats.distinct),
                'rule': 'one evaluation = one step of an async history (future created and polled once, kept future polled again / dropped, direct method, task switch) executed on the '
@@ -759,6 +763,18 @@ class ConcCheck(SeqCheck):
                 if mm and re.search(r'freed|released|never destroyed', mm.group(1)):
                     ctx.violation('boxed stack buffer: ' + mm.group(1)[:400], f'## replay: .build/cargo/debug/splitprobe {ctx.seed} 50\n## {mm.group(1)}\n')
                 elif not mm: ctx.notes['boxed_stack_release'] = '24 drop orders of by-value async splits of a stack buffer of Rc items: one BufFree after the last iterator, every item destroyed once'
+            # the Local variant decides "last iterator out" on PLAIN flags: none of its iterators (detached ones included) may reach a
+            # second thread, by value or by reference (rustc decides, as in C16 / C03)
+            self.send_bad = []
+            sbin, slog = ctx.build_harness(('sendprobe',))
+            if sbin is not None:
+                rc, out = common.sh([os.path.join(sbin, 'sendprobe')])
+                for l in out.split('\n'):
+                    m = re.match(r'(\w+) (\w+) conc=(\d) item_send=(\d) item_sync=(\d) => send=(\d) sync=(\d)\s+# (.*)', l)
+                    if not m: continue
+                    conc, send, sync = int(m.group(3)), int(m.group(6)), int(m.group(7))
+                    if not conc and (send or sync): self.send_bad.append((m.group(8), conc, send, sync))
+                ctx.notes['send_probe_rows_for_C07'] = len(re.findall(r'=> send=', out))
             return run_drop_suite(self, ctx, stats)
         run_script_suite(self, ctx, stats)
         if ctx.prop == 'C10': run_waitprobe(ctx, stats)
@@ -814,6 +830,15 @@ class ConcCheck(SeqCheck):
                                   f'## model-level failing execution (evaluated by coqc on this run): {term} = true\n## {story}\n## observed profile (gen/Profile.v): {prof}\n'
                                   + ('## first diverging event trace:\n' + divs[0].replay_text() if divs else ''))
                     return
+        if getattr(self, 'send_bad', None) and ctx.prop == 'C07':
+            t, conc, send, sync = self.send_bad[0]
+            ctx.violation(f'`{t}` is {"Sync" if sync else "Send"} although it belongs to a local buffer: its liveness flags are plain cells, two threads dropping '
+                          'such iterators decide "last one out" without synchronisation (double free / leak / use after free)',
+                          f'## rustc accepts (probe crate harness/src/bin/sendprobe.rs): {t} send={send} sync={sync} concurrent_buffer={conc}\n'
+                          '// use mutringbuf::*; use mutringbuf::iterators::*;\n'
+                          f'// fn assert_send<T: Send>() {{}}  fn main() {{ assert_send::<{t}>(); }}   // compiles: the iterator can be dropped on another thread\n'
+                          f'## {len(self.send_bad)} such types')
+            return
         if getattr(self, 'send_bad', None) and ctx.prop == 'C03':
             t, conc, send, sync = self.send_bad[0]
             how = 'is Sync: a reference to it can be used from a second thread' if sync else 'is Send although it belongs to a local buffer (plain, unsynchronised index cells)'
